@@ -92,6 +92,9 @@ fn checked_rle_len(data: &[u8]) -> Result<usize, Box<dyn std::error::Error + Sen
     Ok(decoded_len)
 }
 
+/// The largest number of inputs a payload may decode to: twice the window of pending inputs.
+const MAX_DECODED_INPUTS: usize = 256;
+
 fn delta_decode(
     ref_bytes: &[u8],
     data: &[u8],
@@ -101,6 +104,13 @@ fn delta_decode(
     let mut base: Vec<u8> = ref_bytes.to_vec();
 
     while pos < data.len() {
+        // A run of zero bytes decodes to one empty input per two bytes, each costing far more
+        // memory than it occupied on the wire. A sender never has more than a window of pending
+        // inputs (128) plus a few frames; anything beyond twice that is not a legitimate packet.
+        if output.len() >= MAX_DECODED_INPUTS {
+            return Err("more inputs than any legitimate packet carries".into());
+        }
+
         // read the 2-byte length prefix
         if pos + 2 > data.len() {
             return Err("truncated length prefix".into());
